@@ -204,9 +204,11 @@ RAlphabet == {Ins(T, <<<<IntV(9)>>>>), Ins(T, <<<<IntV(1), sb>>>>), Upd(T, <<<<X
               E("Flush", [x |-> 0]), E("Reopen", [x |-> 0])}
 FNext == /\ \/ \E e \in (IF Cfg = "foreignr" THEN RAlphabet ELSE FAlphabet) : Do(e)
             \/ sess = "open" /\ CatalogMentions(Cur, Gone) /\ Gone \notin DOMAIN Cur.schemas /\ \E e \in GoneRejects : Do(e)
-            \* only REFUSED creations where an orphan stream waits under the name (what an accepted one finds there is not specified)
+            \* an orphan stream waits under the name: refused creations leave it alone (every byte), an accepted one
+            \* starts the table EMPTY whatever the stream held (its bytes are no rows of the new table's layout)
             \/ sess = "open" /\ "ostream" \in DOMAIN lay.c /\ Gone \notin DOMAIN Cur.schemas
-               /\ \E e \in {Cre(Gone, <<>>), Cre(Gone, <<ColK, StrCol(V, 300, TRUE, FALSE, <<>>)>>), Drp(Gone)} : Do(e)
+               /\ \E e \in {Cre(Gone, <<>>), Cre(Gone, <<ColK, StrCol(V, 300, TRUE, FALSE, <<>>)>>), Drp(Gone),
+                             Cre(Gone, TabT), Cre(Gone, <<ColK32>>)} : Do(e)
          /\ UNCHANGED lay
 FSpec == FInit /\ [][FNext]_<<vars, lay>>
 
